@@ -60,7 +60,7 @@ SPEC = {
     "harness_timeout": {"quick": 600, "thorough": 3000},
     "theorems": ["C17_exclusion", "C17_counters_exact", "C17_exclusion_state", "C17_wellbracketed_no_panic",
                  "C17_no_lost_wakeup", "C17_no_lost_wakeup_quiescent", "C17_deadlock_free",
-                 "C17_unlock_unheld_panics", "C17_unlock_held_ok", "C17_monitor_refines_rwlock", "C17_panic_freezes_lock_state", "C17_unlock_unheld_old_witness",
+                 "C17_unlock_unheld_panics", "C17_unlock_held_ok", "C17_monitor_refines_rwlock", "C17_panic_releases_internal_mutex", "C17_unlock_unheld_old_witness",
                  "C17_dag_exclusion", "C17_dag_deadlock_free", "C17_dag_no_deadlock", "C17_dag_wellbracketed_no_panic",
                  "C17_dag_unlock_unheld_panics", "C17_dag_unlock_wrong_mode_old_witness",
                  "C17_dag_composed_monitors", "C17_dag_composed_exclusion", "C17_dag_composed_deadlock_free", "C17_dag_composed_no_panic", "C17_dag_composed_no_leak", "C17_dag_composed_objects_any_scripts", "C17_dag_misuse_panic_preserves_state", "C17_dag_misuse_call_preserves_state", "C17_dag_misuse_panic_fixed_witness", "C17_dag_misuse_panic_wrong_mode_witness", "C17_dag_misuse_panic_kth_id_witness",
@@ -87,7 +87,7 @@ SPEC = {
         "per-entity abstract reader/writer locks, unregister+unlock as one step",
         "Counter/Stack data layer (Hive/Model/SyncMutexWaitV.lean, the model the driver runs): Wait.step with stack contents (FIFO, ids = push "
         "sequence numbers), popped elements and Set/Update return values per goroutine, subscriber notifications (old,new) attached",
-        "state after a misuse panic: StarvingMutex frozen (internal mutex stays locked); DAGMutex composed model = code after the repair "
+        "state after a misuse panic: StarvingMutex as before the call (the internal mutex is released before the panic, code after the repair); DAGMutex composed model = code after the repair "
         "'unregister only after the unlock has succeeded': Unlock/RUnlock look the mutexes up (validation with multiplicity, registry "
         "untouched, d.Mutex released before the panic), unlock them, and unregister in a second critical section",
         "regenerated normalised statements of 36 anchored functions pinned by C17_stmts_* (Hive/Props/SyncMutexCode.lean)",
@@ -109,7 +109,7 @@ SPEC = {
                 "Data layer: stack FIFO/conservation, notification chain, return values (C17_stack_fifo_conservation, "
                 "C17_counter_notifications_chain, C17_counter_stack_return_values) over a refinement of the wait monitor "
                 "(C17_waitv_refines_wait), observed per arrival. After a recovered misuse panic the state is observed and probed "
-                "(C17_panic_freezes_lock_state; C17_dag_misuse_panic_preserves_state / C17_dag_misuse_call_preserves_state: a misused "
+                "(C17_panic_releases_internal_mutex; C17_dag_misuse_panic_preserves_state / C17_dag_misuse_call_preserves_state: a misused "
                 "DAGMutex.Unlock/RUnlock panics with the registry and every entity's lock state untouched, for a wrong mode at the k-th id "
                 "of RUnlock with the k-1 read locks before it released and all registrations in place - the former known finding, repaired "
                 "in /repo fdd3faa; C17_dag_composed_objects_any_scripts: under arbitrary scripts every mutex object keeps the monitor "
